@@ -406,6 +406,17 @@ class Sym:
                 return Poly.atom(f"{e.id}∈{it}") if d.value is not None else Poly.atom(f"{e.id}∈unpack({it})")
             if d.kind in ("import", "def"):
                 return Poly.atom(e.id)
+            if d.kind == "unpack" and isinstance(d.ast, ast.Assign) and len(d.ast.targets) == 1:
+                t, v = d.ast.targets[0], d.ast.value
+                if (isinstance(t, (ast.Tuple, ast.List)) and isinstance(v, (ast.Tuple, ast.List)) and len(t.elts) == len(v.elts)
+                        and not any(isinstance(x, ast.Starred) for x in t.elts + v.elts)):
+                    for te, ve in zip(t.elts, v.elts):
+                        if isinstance(te, ast.Name) and te.id == e.id:
+                            return self.ev(ve, d.node, depth + 1)
+                if isinstance(t, (ast.Tuple, ast.List)):
+                    for i, te in enumerate(t.elts):
+                        if isinstance(te, ast.Name) and te.id == e.id:
+                            return Poly.atom(f"({self.canon(v, d.node, depth + 1)})[{i}]")
             return Poly.atom(f"{e.id}@{d.kind}")
         kinds = sorted({d.kind for d in defs})
         return Poly.atom(f"phi({e.id}:{len(defs)}:{'/'.join(kinds)})")
